@@ -101,9 +101,13 @@ def evaluate_var(xss_var, parent, until, ignore_nodes=None):
                 if isinstance(to, ast.Str):
                     secure = True
                 elif isinstance(to, ast.Name):
-                    secure = evaluate_var(to, parent, to.lineno, ignore_nodes)
+                    secure = evaluate_var(
+                        to, parent, node.lineno, ignore_nodes
+                    )
                 elif isinstance(to, ast.Call):
-                    secure = evaluate_call(to, parent, ignore_nodes)
+                    secure = evaluate_call(
+                        to, parent, ignore_nodes, node.lineno
+                    )
                 elif isinstance(to, (list, tuple)):
                     num_secure = 0
                     for some_to in to:
@@ -129,7 +133,7 @@ def evaluate_var(xss_var, parent, until, ignore_nodes=None):
     return secure
 
 
-def evaluate_call(call, parent, ignore_nodes=None):
+def evaluate_call(call, parent, ignore_nodes=None, until=None):
     secure = False
     evaluate = False
     if isinstance(call, ast.Call) and isinstance(call.func, ast.Attribute):
@@ -145,12 +149,14 @@ def evaluate_call(call, parent, ignore_nodes=None):
             if isinstance(arg, ast.Str):
                 num_secure += 1
             elif isinstance(arg, ast.Name):
-                if evaluate_var(arg, parent, call.lineno, ignore_nodes):
+                if evaluate_var(
+                    arg, parent, until or call.lineno, ignore_nodes
+                ):
                     num_secure += 1
                 else:
                     break
             elif isinstance(arg, ast.Call):
-                if evaluate_call(arg, parent, ignore_nodes):
+                if evaluate_call(arg, parent, ignore_nodes, until):
                     num_secure += 1
                 else:
                     break
